@@ -2,6 +2,8 @@
 
 from __future__ import annotations
 
+from hypothesis import strategies as st
+
 from vlib import build, refcodec, snapshot
 from vlib.harness import PropertyViolation, run_property
 
@@ -18,7 +20,7 @@ RULE = (
 )
 ASSUMPTIONS = list(refcodec.TRUSTED_BASE) + ["the decoder accepts well-formed chunks the prose does not list (FLGS, SFGS, SLnK) and never demands an undocumented one"]
 REQUIRED_LABELS = {
-    "quick": ["project", "synth", "payload_nondefault", "options_set", "links", "cells", "neg_min_ctl_at_min"],
+    "quick": ["project", "synth", "payload_nondefault", "options_set", "links", "cells", "neg_min_ctl_at_min", "metamodule_nested_2_levels", "metamodule_nested_3_levels"],
     "thorough": ["project", "synth", "payload_nondefault", "options_set", "links", "cells", "neg_min_ctl_at_min", "sampler_with_samples", "metamodule", "gap"] + ["type_" + t for t in build.attachable_types()],
 }
 
@@ -31,6 +33,25 @@ def plan(tier):
     n, per = (16, 120) if tier == "quick" else (16, 2000)
     types = build.attachable_types()
     return [{"kind": "random", "examples": per, "sweep": types[i::n]} for i in range(n)]
+
+
+@st.composite
+def nested_meta(draw):
+    """A MetaModule whose embedded project holds a MetaModule whose embedded project holds ... (2-4 levels)."""
+    ms = draw(build.module_spec(in_project=True, depth=1, tname="MetaModule"))
+    for _ in range(draw(st.integers(1, 3))):
+        outer = draw(build.module_spec(in_project=True, depth=1, tname="MetaModule"))
+        outer["payload"]["project"]["modules"].append(ms)
+        ms = outer
+    return ms
+
+
+def meta_depth(ms):
+    if not ms:
+        return 0
+    if ms.get("type") != "MetaModule":
+        return 0
+    return 1 + max([meta_depth(x) for x in ms["payload"]["project"]["modules"]] + [0])
 
 
 def conform(data, snap, what):
@@ -110,6 +131,9 @@ def run_shard(ctx, desc):
         ctx.case()
         check_module_spec(ctx, ms)
         labels = build.module_labels(ms) | {"synth"}
+        d = meta_depth(ms)
+        if d >= 2:
+            labels.add("metamodule_nested_%d_levels" % min(d, 3))
         ctx.label(*labels)
         if build.module_nontrivial(labels):
             ctx.mark_nontrivial(ms)
@@ -126,6 +150,9 @@ def run_shard(ctx, desc):
         if len(repr(spec)) < 2000:
             ctx.sample(spec)
 
+    # containers nested several levels deep (MetaModule in MetaModule in MetaModule; Sampler effects inside)
+    if not run_property(ctx, nested_meta(), body_m, 10 if ctx.tier == "quick" else 60, tag="nested", bucket="synth"):
+        return
     for t in desc["sweep"]:
         if not run_property(ctx, build.module_spec(in_project=True, depth=depth, tname=t, dense=True), body_m, 8 if ctx.tier == "quick" else 40, tag="sweep_" + t, bucket="synth"):
             return
